@@ -496,6 +496,10 @@ func replayRelational(checker, mode string) func(rc *runCtx, h *harness, v *inte
 			var n2 []string
 			ys, n2 = realise(model, specView(), "d2", "decl", 3)
 			notes = append(notes, n2...)
+			// both realisations number their invented names from 1: keep them apart in the merged file
+			for k := range ys {
+				ys[k] = strings.NewReplacer("gsxv", "gsxw", "gsxd", "gsxe", "gsxT_", "gsxU_").Replace(ys[k])
+			}
 		case "repeat":
 			xs, notes = realise(model, specView(), "file", "file", 6)
 			ys = []string{""}
@@ -531,8 +535,12 @@ func replayRelational(checker, mode string) func(rc *runCtx, h *harness, v *inte
 			return false, err.Error()
 		}
 		st := map[string]int{}
+		why := ""
 		for _, r := range results {
 			st[r.Status]++
+			if r.Status == "SKIP" && why == "" {
+				why = " first skip: " + r.Detail
+			}
 			if r.Status == "DIFF" {
 				base := strings.TrimSuffix(filepath.Base(r.File), "_x.go")
 				keep := []string{files[base+"_x.go"]}
@@ -546,7 +554,7 @@ func replayRelational(checker, mode string) func(rc *runCtx, h *harness, v *inte
 				return true, "real checker: " + r.Detail
 			}
 		}
-		return false, fmt.Sprintf("%d native comparisons without difference (%v)", len(results), st)
+		return false, fmt.Sprintf("%d native comparisons without difference (%v)%s", len(results), st, why)
 	}
 }
 
